@@ -11,6 +11,7 @@ from ..core import case_nprng
 from ..drivers import system as SY
 from ..model import EPS, LArr, Snap, as_float, isnan, nabs
 
+PIGGY = True  # thorough tier also runs the repository tests / howtos / examples under these monitors
 LEVEL = "exploration"
 BUDGET = {"quick": 55, "thorough": 400}
 SHARDS = {"quick": 1, "thorough": 16}
